@@ -1105,22 +1105,32 @@ class AsyncBackgroundBatcher(Generic[A_contra, R_co]):
         except KeyError:
             pass
         else:
-            return await fut
+            # Shield so cancelling this caller can't cancel the future
+            # shared with the other callers of this key
+            return await aio.shield(fut)
 
         fut = self._retention_cache[key] = self._loop.create_future()
+        # Evict once the request itself is done instead of when this
+        # caller is, as this caller may be cancelled long before that
+        fut.add_done_callback(partial(self._evict, key))
         await self._queue.put((key, arg, fut))
+        return await aio.shield(fut)
 
-        try:
-            return await fut
-        finally:
-            if self.retention_timeout > 0:
-                self._loop.call_later(
-                    self.retention_timeout,
-                    self._retention_cache.pop,
-                    key,
-                )
-            else:
-                del self._retention_cache[key]
+    def _evict(self, key: str, fut: 'aio.Future[R_co]') -> None:
+        """
+        Remove a completed request from the retention cache, either
+        immediately or after :attr:`retention_timeout`.
+        """
+        if not fut.cancelled():
+            fut.exception()  # Mark retrieved, the callers may be gone
+        if self.retention_timeout > 0:
+            self._loop.call_later(
+                self.retention_timeout,
+                self._retention_cache.pop,
+                key, None,
+            )
+        else:
+            self._retention_cache.pop(key, None)
 
     def _daemon_task(
         self,
